@@ -407,8 +407,12 @@ class _GitFile(IO[bytes]):
                     # Windows versions prior to Vista don't support atomic
                     # renames
                     _fancy_rename(self._lockfilename, self._filename)
-        finally:
+        except BaseException:
             self.abort()
+            raise
+        # The rename succeeded, so the lock file name is no longer ours: it
+        # may already belong to another writer and must not be removed.
+        self._closed = True
 
     def __del__(self) -> None:
         if not getattr(self, "_closed", True):
